@@ -604,8 +604,9 @@ func keyList(f *ast.File, name string, statuses map[string]bool) []string {
 }
 
 // entryProg recognises the body of cleanupConnection:
-//   otherParty := channel.Initiator; if otherParty == env.ID() { otherParty = channel.Responder }
-//   env.CleanupChannel(chid) ; env.Unprotect(otherParty, chid.String()) ; return ctx.Trigger(datatransfer.CleanupComplete)
+//
+//	otherParty := channel.Initiator; if otherParty == env.ID() { otherParty = channel.Responder }
+//	env.CleanupChannel(chid) ; env.Unprotect(otherParty, chid.String()) ; return ctx.Trigger(datatransfer.CleanupComplete)
 func entryProg(f *ast.File, events map[string]bool) []string {
 	for _, d := range f.Decls {
 		fd, ok := d.(*ast.FuncDecl)
@@ -750,6 +751,7 @@ func main() {
 
 	mf := parseFile(filepath.Join(repo, "message/types/message_types.go"))
 	msgTypes := iotaEnum(mf, "MessageType")
+	genPreds(repo, out, msgTypes)
 
 	ff := parseFile(filepath.Join(repo, "channels/channels_fsm.go"))
 	defs := parseEvents(ff, statuses, events, lists)
@@ -760,6 +762,7 @@ func main() {
 	prog := entryProg(ff, events)
 
 	genMigrate(repo, out, statuses)
+	genSchema(repo, out)
 
 	hdr := "(* GENERATED by dt2coq from /repo on every run. Do not edit. *)\nFrom Coq Require Import List NArith String.\nImport ListNotations.\nLocal Open Scope N_scope.\n\n"
 
